@@ -9,6 +9,11 @@ package genetics
 //@ pred sortedLT(gs []*Gene) = forall i, j :: 0 <= i && i < j && j < len(gs) ==> gs[i].InnovationNum < gs[j].InnovationNum
 //@ pred nonNilGenes(gs []*Gene) = forall i :: 0 <= i && i < len(gs) ==> gs[i] != nil
 
+//@ pred sortedNodesLE(ns []*network.NNode) = forall i, j :: 0 <= i && i < j && j < len(ns) ==> ns[i].Id <= ns[j].Id
+//@ pred sortedNodesLT(ns []*network.NNode) = forall i, j :: 0 <= i && i < j && j < len(ns) ==> ns[i].Id < ns[j].Id
+//@ pred nonNilNodes(ns []*network.NNode) = forall i :: 0 <= i && i < len(ns) ==> ns[i] != nil
+
+// ---- C01: ordered insertion (the mechanism every mutator and crossover relies on) ----------------
 //@ func geneInsert
 //@   props C01
 //@   requires g != nil
@@ -16,7 +21,26 @@ package genetics
 //@   requires sortedLE(genes)
 //@   ensures [len] len(result) == len(genes) + 1
 //@   ensures [sorted] sortedLE(result)
+//@   ensures [strict] sortedLT(genes) && (forall i :: 0 <= i && i < len(genes) ==> genes[i].InnovationNum != g.InnovationNum) ==> sortedLT(result)
+//@   ensures [insert] exists k :: 0 <= k && k < len(result) && result[k] == g && (forall i :: 0 <= i && i < k ==> result[i] == old(genes[i])) && (forall i :: k < i && i < len(result) ==> result[i] == old(genes[i-1]))
+//@   ensures [keep] unchanged(genes)
+//@   ensures [nonnil] nonNilGenes(result)
 //@   loop 1:
 //@     invariant -1 <= i && i <= index - 1 && index <= len(genes)
 //@     invariant index == len(genes) ==> (forall k :: i < k && k < len(genes) ==> g.InnovationNum < genes[k].InnovationNum)
 //@     invariant index == 0 ==> g.InnovationNum <= genes[0].InnovationNum
+//@ func nodeInsert
+//@   props C01
+//@   requires n != nil
+//@   requires nonNilNodes(nodes)
+//@   requires sortedNodesLE(nodes)
+//@   ensures [len] len(result) == len(nodes) + 1
+//@   ensures [sorted] sortedNodesLE(result)
+//@   ensures [strict] sortedNodesLT(nodes) && (forall i :: 0 <= i && i < len(nodes) ==> nodes[i].Id != n.Id) ==> sortedNodesLT(result)
+//@   ensures [insert] exists k :: 0 <= k && k < len(result) && result[k] == n && (forall i :: 0 <= i && i < k ==> result[i] == old(nodes[i])) && (forall i :: k < i && i < len(result) ==> result[i] == old(nodes[i-1]))
+//@   ensures [keep] unchanged(nodes)
+//@   ensures [nonnil] nonNilNodes(result)
+//@   loop 1:
+//@     invariant -1 <= i && i <= index - 1 && index <= len(nodes)
+//@     invariant index == len(nodes) ==> (forall k :: i < k && k < len(nodes) ==> n.Id < nodes[k].Id)
+//@     invariant index == 0 ==> n.Id <= nodes[0].Id
